@@ -464,7 +464,17 @@ def c01_r(ctx):
         full = ExprBuilder(ctx.prog, f)
         o_full = expr_str(full.operand({"k": "copy", "place": _var_place(f, off[1])}))
         d_full = expr_str(full.operand({"k": "copy", "place": _var_place(f, data)}))
-        if not ("data.offset" in o_full and "data.file_data" in d_full and o_full.rsplit(").", 1)[0] == d_full.rsplit(").", 1)[0]):
+        oe = simp(full.operand({"k": "copy", "place": _var_place(f, off[1])}))
+        de = simp(full.operand({"k": "copy", "place": _var_place(f, data)}))
+
+        def alts(x):
+            xs = x[2] if x[0] == "phi" else (x,)
+            return [a[1] if a[0] == "place" else None for a in xs]
+
+        oa, da = alts(oe), alts(de)
+        paired = len(oa) == len(da) and all(a and d and a.endswith(".offset") and d.endswith(".file_data") and a[: -len(".offset")] == d[: -len(".file_data")] for a, d in zip(oa, da))
+        old_form = "data.offset" in o_full and "data.file_data" in d_full and o_full.rsplit(").", 1)[0] == d_full.rsplit(").", 1)[0]
+        if not (paired or old_form):
             problems.append("offset (%s) and data (%s) are not the offset/file_data fields of the same PDU" % (o_full[:120], d_full[:120]))
     # order and unconditionality: the seek dominates the write, the write dominates the record
     from core import dominators
